@@ -2,6 +2,8 @@
 """Regenerates the `fixed` list of known_findings.json from /repo's "fix:" commits."""
 import json, subprocess
 PROP = {
+"a validator yielding index 0 as error path":"C10",
+"resolver(serialized=True, order=...) ignored":"C16",
 "Optional under coercion reported only":"C02",
 "the group notation of dependent_required":"C03",
 "invalid base64 and pathological regex":"C03",
